@@ -99,7 +99,16 @@ pub fn compare_note(ctx: &mut Ctx, big: bool, data: &[u8], got: &Note<'_>, exp: 
 
 /// Full comparison of an iterator's output with the reference walk of `data`.
 pub fn check_iteration<'a, I: Iterator<Item = Note<'a>>>(ctx: &mut Ctx, via: &str, big: bool, align: u64, data: &'a [u8], mut it: I) {
-    let w = walk(big, align, data);
+    let mut w = walk(big, align, data);
+    // a "GNU\0"/NT_GNU_ABI_TAG record whose descriptor is shorter than the ABI's 16 bytes is outside the statement
+    // (the crate ends the iteration there): nothing is demanded from that record on
+    let mut open_end = false;
+    if let Some(j) = w.notes.iter().position(|n| crate::reference::notes::typed(big, data, n) == crate::reference::notes::RefTyped::Unjudged) {
+        w.notes.truncate(j);
+        w.ambiguous = None;
+        open_end = true;
+        ctx.count("unjudged-from-short-abi-tag-on");
+    }
     ctx.eval();
     let cap = w.notes.len() + 3;
     let mut got: Vec<Note<'a>> = Vec::new();
@@ -116,7 +125,7 @@ pub fn check_iteration<'a, I: Iterator<Item = Note<'a>>>(ctx: &mut Ctx, via: &st
         return;
     }
     let allowed = w.notes.len() + w.ambiguous.is_some() as usize;
-    if got.len() > allowed {
+    if got.len() > allowed && !open_end {
         ctx.set_input(data);
         ctx.violation(&sig("extra-notes"), format!("{via} align={align} big={big}: {} notes fit ({} more in the silent zone), {} yielded; data {}", w.notes.len(), w.ambiguous.is_some() as usize, got.len(), hex_trunc(data, 96)));
         return;
